@@ -374,3 +374,89 @@ Example c04_example_div_guards :
 Proof. repeat split; vm_compute; reflexivity. Qed.
 Example c04_example_table_nonempty : (400 <? Z.of_nat (List.length table)) = true.
 Proof. vm_compute. reflexivity. Qed.
+
+
+(* ==== statement level: the control-flow ENCODINGS (coq/Target/*.v) =========================================
+   Theorems for ALL bodies / continuing blocks / conditions / states / fuels about the fixed ways in which naga
+   encodes structured control flow, over the generic structured language of Target/Structured.v whose semantics IS
+   the IR reference interpreter (c04_ir_interpreter_is_generic: exact equality with IR/Sem.v) and whose rules are
+   those of the target interpreters (Target/GlslInstance.v).  Tied to /repo on every run by the recogniser
+   Target/Shapes.v (tool cfshape) over every emitted text: a loop or switch outside the proved shapes is reported. *)
+Require Import Naga.Target.Structured Naga.Target.LoopInit Naga.Target.LoopBound Naga.Target.ContinueForward
+        Naga.Target.SwitchForms Naga.Target.Desugar Naga.Target.IrInstance Naga.Target.GlslInstance Naga.Target.Examples.
+
+(* IR/Sem.v's interpreter is the generic interpreter on the translation IrInstance.tr: exact equality, all fuels *)
+Theorem c04_ir_interpreter_is_generic : forall (m : Naga.IR.Syntax.module) (f : Naga.IR.Syntax.func) (n : nat),
+  (forall b fr mem, conv (Naga.IR.Sem.exec_block n m f b fr mem) = run_block n (tr_b m f b) (fr, mem)) /\
+  (forall s fr mem, conv (Naga.IR.Sem.exec_stmt n m f s fr mem) = run_stmt n (tr m f s) (fr, mem)) /\
+  (forall cs fr mem, conv (Naga.IR.Sem.exec_cases n m f cs fr mem) = run_cases n (tr_c m f cs) (fr, mem)) /\
+  (forall body cont brk fr mem,
+     conv (Naga.IR.Sem.exec_loop n m f body cont brk fr mem) =
+     run_loop n (tr_b m f body) (tr_b m f cont)
+              (match brk with Some h => Some (bool_of m f "break if: not a bool" h) | None => None end) (fr, mem)).
+Proof. exact ir_is_generic. Qed.
+Print Assumptions c04_ir_interpreter_is_generic.
+
+(* and the translated statements satisfy the monotonicity hypothesis of every encoding theorem *)
+Theorem c04_ir_translation_monotone : forall m f b, mono_b (tr_b m f b).
+Proof. exact tr_b_mono. Qed.
+Print Assumptions c04_ir_translation_monotone.
+
+(* bool loop_init = true; while(true) { if (!loop_init) { continuing; if (break_if) break; } loop_init = false; body }
+   computes exactly what Loop{body; continuing; break_if} computes; the flag variable L is fresh (explicit
+   hypotheses) and ends up false; both directions *)
+Theorem c04_loop_init_encoding_equiv :
+  forall (state R : Type) (L : lens state bool) (body cont : list (Structured.stmt state R)) (bi : option (cond state)),
+  mono_b body -> mono_b cont -> indep_b L body -> indep_b L cont ->
+  (forall c : cond state, bi = Some c -> indep_fn L c) ->
+  may_brk_b cont = false -> may_cont_b cont = false ->
+  forall (st : state) (o : Structured.outcome R) (X : state),
+  evals_b (loop_init_enc L body cont bi) st (o, X) <->
+  (exists s' : state, X = lset L false s' /\ evals_s (Loop body cont bi) st (o, s')).
+Proof. exact loop_init_encoding_equiv. Qed.
+Print Assumptions c04_loop_init_encoding_equiv.
+
+Example c04_loop_init_nonvacuous :
+  mono_b ex_body /\ mono_b ex_cont /\ indep_b flagL ex_body /\ indep_b flagL ex_cont /\
+  (forall c, ex_bi = Some c -> indep_fn flagL c) /\ may_brk_b ex_cont = false /\ may_cont_b ex_cont = false /\
+  run_stmt 40 ex_loop ex_start = Done (Structured.ONormal, mkx 5 6 true (7, 7)%Z) /\
+  run_block 40 (loop_init_enc flagL ex_body ex_cont ex_bi) ex_start = Done (Structured.ONormal, mkx 5 6 false (7, 7)%Z).
+Proof.
+  exact (conj ex_mono_body (conj ex_mono_cont (conj ex_indep_flag_body (conj ex_indep_flag_cont (conj ex_indep_flag_bi
+        (conj eq_refl (conj eq_refl (conj ex_ir_run ex_loop_init_run)))))))).
+Qed.
+
+(* the uint2 loop_bound counter (check for zero, 64-bit decrement with 32-bit wrapping arithmetic) is transparent
+   for a loop that terminates within k < 2^64 iterations; C = the counter variable, fresh for the loop body X *)
+Theorem c04_loop_bound_transparent :
+  forall (state R : Type) (C : lens state (Z * Z)) (X : list (Structured.stmt state R)),
+  mono_b X -> indep_b C X ->
+  forall (k : nat) (st : state) (o : Structured.outcome R) (s' : state),
+  (Z.of_nat k < 2 ^ 64)%Z -> iter_ev X k st (o, s') ->
+  exists p' : Z * Z, evals_b (bounded_enc C X) st (o, lset C p' s').
+Proof. exact loop_bound_forward. Qed.
+Print Assumptions c04_loop_bound_transparent.
+
+(* conversely: a run of the bounded form with fuel n < 2^64 (hence fewer than 2^64 iterations) is a run of the loop *)
+Theorem c04_loop_bound_transparent_converse :
+  forall (state R : Type) (C : lens state (Z * Z)) (X : list (Structured.stmt state R)),
+  mono_b X -> indep_b C X ->
+  forall (n : nat) (st : state) (r : Structured.outcome R * state),
+  (Z.of_nat n < 2 ^ 64)%Z -> run_block n (bounded_enc C X) st = Done r ->
+  exists (o : Structured.outcome R) (s' : state) (p' : Z * Z), r = (o, lset C p' s') /\ evals_s (WhileTrue X) st (o, s').
+Proof. exact loop_bound_converse. Qed.
+Print Assumptions c04_loop_bound_transparent_converse.
+
+Example c04_loop_bound_nonvacuous :
+  mono_b ex_plain_body /\ indep_b ctrL ex_plain_body /\
+  exists p, run_block 40 (bounded_enc ctrL ex_plain_body) ex_start = Done (Structured.ONormal, lset ctrL p (mkx 5 6 true (7, 7)%Z)).
+Proof. exact (conj ex_mono_plain (conj ex_indep_ctr_plain ex_bounded_run)). Qed.
+
+(* inserted `break;` after every non-fall-through case that does not end in a terminator: forward direction *)
+Theorem c04_switch_case_breaks_partial :
+  forall (state R : Type) (n : nat) (sel : state -> result (option nat))
+         (cs : list (list (Structured.stmt state R) * bool)) (st : state) (r : Structured.outcome R * state),
+  mono_c cs -> run_stmt n (Switch sel cs) st = Done r -> evals_s (Switch sel (enc_cases cs)) st r.
+Proof. exact case_breaks_forward. Qed.
+Print Assumptions c04_switch_case_breaks_partial.
+
